@@ -43,6 +43,16 @@ CLAIMS = {
         design_ref="DESIGN.md §3 C05",
         note="Numeric bounds of every segment over all runs are not decided. Trusted base as C17.",
         technique="static analysis: origin-tree min-chain / leaf-set rules and guard must-pass-through over rustc MIR"),
+    'C02': dict(
+        text="Timer transition table and Timer::poll_at table extracted per variant by finite-domain abstract interpretation (every armed timer has a finite deadline; set_for_retransmit arms from every state but Close); retransmission timer re-armed after every sequence-occupying emit; tcp::poll_at mirrors every send predicate of dispatch (unmapped new predicates fail closed); cwnd >= 1 MSS at every store in Reno and CUBIC; no Option<Instant> combined with the derived ordering below Interface::poll_at; zero-window-probe arming guards.",
+        design_ref="DESIGN.md §3 C02",
+        note="Liveness itself (eventual delivery over all schedules) is not decided; these are necessary structural conditions. Trusted base as C17.",
+        technique="static analysis: finite-domain abstract interpretation (transition tables), ordering/pairing, sibling agreement, abstract '>= k*mss' domain over rustc MIR"),
+    'C13': dict(
+        text="Sibling agreement between every dispatch/egress function and its poll_at: deadline fields compared with the clock in dispatch are read by poll_at (DNS, DHCPv4, datagram sockets), DNS takes the minimum over all queries; TCP: Timer tables, mirror of send predicates (R02.x); Meta::poll_at and egress_permitted take the same decision; Interface::poll_at short-circuits on a busy fragmenter, routes sockets through Meta, never combines Option deadlines with the derived ordering; Slaac::poll_at mirrors rs_required; every failed socket dispatch passes neighbor_missing before the loop continues.",
+        design_ref="DESIGN.md §3 C13",
+        note="The two-sided timing claim at every reachable state is not decided; IGMP/MLD report timers are outside the claim as in the property. Trusted base as C17.",
+        technique="static analysis: sibling-agreement (leaf-set) and pairing rules, finite-domain tables over rustc MIR"),
 }
 
 NOT_YET = "structural rules for this property are not built yet in this revision; no static claim is made"
